@@ -8,6 +8,7 @@
 //	jobsh http synthetic             codes 90..610 through a scripted HTTPHandler on one job object (x body x callback)
 //	jobsh http server                codes 100..599 from a local httptest server on one job object (x body x callback)
 //	jobsh http transport             refused / timeout / cancelled context
+//	jobsh http dump                  DumpResponse(true) after every execution against a real server returns that execution's body (round3.go)
 //	jobsh http stream                previous response's body kept open by the server (stalled / trickle); next execution under another context (round3.go)
 //	jobsh shell nostart              executions that never start the shell (ctx done, shell missing / not executable) between ones that run (round3.go)
 //	jobsh shell background           the shell exits while a background process keeps stdout/stderr open for 0.5 .. 4 s and writes late (round3.go)
@@ -49,7 +50,7 @@ func atoi(s string) int {
 }
 
 func usage() {
-	fmt.Fprintln(os.Stderr, "usage: jobsh isolated stress G N SEED | isolated hold | isolated sched MS | http synthetic|server|transport|stream | shell exits|sizes|nostart|background | func | cancel | overlap | conc KIND ROUNDS | leak N")
+	fmt.Fprintln(os.Stderr, "usage: jobsh isolated stress G N SEED | isolated hold | isolated sched MS | http synthetic|server|transport|stream|dump | shell exits|sizes|nostart|background | func | cancel | overlap | conc KIND ROUNDS | leak N")
 	os.Exit(2)
 }
 
@@ -71,6 +72,8 @@ func main() {
 		httpServer()
 	case a[0] == "http" && len(a) == 2 && a[1] == "transport":
 		httpTransport()
+	case a[0] == "http" && len(a) == 2 && a[1] == "dump":
+		httpDump()
 	case a[0] == "http" && len(a) == 2 && a[1] == "stream":
 		httpStream()
 	case a[0] == "shell" && len(a) == 2 && a[1] == "background":
